@@ -153,3 +153,133 @@ def run(ck):
     allowed = re.compile(r"ToSHA256<Ctx>>::hash$|InlineOrHashed::new$|api::PersistentState::hash$")  # PersistentState::hash: constant digest of the empty state
     bad = [x for x in trie_dig if not allowed.search(x)]
     ck.ob("WHO", "sha2 in trie", "hashers", not bad and len(trie_dig) >= 3, "functions creating a SHA-256 state in the trie: %s" % [x.split("::")[-3:] for x in trie_dig], "")
+
+    format_rules(ck, c)
+
+
+# ---------------------------------------------------------------------------------------------------------------------
+# storage formats: every item of the documented node encodings is written (and read back) by its own site
+WR_CALLS = re.compile(r"WriteBytesExt::write_(u8|u16|u32|u64)$|io::Write::write_all$|types::Reference::store$|CachedRef::<.*>::(store_and_uncache|load_and_store)$|"
+                      r"low_level::write_node_path_and_value_tag$|::store_update_buf$|BackingStoreStore::store_raw$|::migrate$")
+RD_CALLS = re.compile(r"ReadBytesExt::read_(u8|u16|u32|u64)$|io::Read::read_exact$|types::Reference::load$|Loadable::load$|Loadable>::load$|"
+                      r"low_level::read_node_path_and_value_tag$|low_level::read_buf$|types::Hash::read$|Hash.*::read$")
+NOISE_CALLS = ("branch", "deref", "as_ref", "borrow", "borrow_mut", "deref_mut", "into", "from", "clone", "as_mut")
+
+
+def _site_names(f, t, is_write):
+    p = t["f"]["path"]
+    if is_write:
+        if re.search(r"Reference::store$|store_and_uncache$|load_and_store$|::store_update_buf$|::migrate$", p):
+            data = t["args"][:1]
+        elif p.endswith("write_node_path_and_value_tag"):
+            data = t["args"][:2]
+        else:
+            data = t["args"][1:]
+        o = set()
+        for a in data:
+            o |= f.origins(a, deep=True)
+    else:
+        o = set()
+    names = set(x[1] for x in o if x[0] == "field" and not x[1].isdigit())
+    names |= set(x[1].split("::")[-1] for x in o if x[0] == "call" and x[1].split("::")[-1] not in NOISE_CALLS)
+    names |= set("lit%s" % x[1] for x in o if x[0] == "lit")
+    return names
+
+
+def _match(items, sites):
+    """maximum bipartite matching items -> distinct sites; returns the list of unmatched item labels"""
+    adj = []
+    for it in items:
+        label, callee, need = it[0], it[1], it[2]
+        self_pat = it[3] if len(it) > 3 else None
+        adj.append([i for i, (cal, names, self_ty) in enumerate(sites) if (callee is None or re.search(callee, cal)) and set(need) <= names
+                    and (self_pat is None or re.search(self_pat, self_ty))])
+    owner = {}
+
+    def aug(u, seen):
+        for v in adj[u]:
+            if v in seen:
+                continue
+            seen.add(v)
+            if v not in owner or aug(owner[v], seen):
+                owner[v] = u
+                return True
+        return False
+    un = []
+    for u in range(len(items)):
+        if not aug(u, set()):
+            un.append(items[u][0])
+    return un
+
+
+def node_items(dataref):
+    return [("path length and value tag", r"write_node_path_and_value_tag$", ("to_slice", "is_none")),
+            ("stem bytes", r"write_all$", ("path", "to_slice")),
+            ("inline value length", r"write_u8$", ("len", "value")),
+            ("inline value bytes", r"write_all$", ("data", "value")),
+            ("indirect marker 0xff", None, ("lit255",)),
+            ("indirect value hash", r"write_all$", ("hash", "value")),
+            ("indirect value reference", dataref, ("data", "value")),
+            ("number of children", r"write_u8$", ("children", "len")),
+            ("child key", r"write_u8$", ("children", "next")),
+            ("child reference", r"Reference::store$", ("pop",))]
+
+
+def format_rules(ck, c):
+    LLp = "concordium_smart_contract_engine::v1::trie::low_level::"
+    HN = "<impl concordium_smart_contract_engine::v1::trie::types::Hashed<concordium_smart_contract_engine::v1::trie::low_level::Node>>::"
+    tables = [
+        (LLp + "Node::store_update_buf::{closure#0}", node_items(r"store_and_uncache$")),
+        (LLp + "Node::migrate::{closure#0}", node_items(r"load_and_store$")),
+        (LLp + "Node::store_update_buf", [("child node hash", r"write_all$", ("hash",)), ("child node stored in the backing store", r"store_raw$", ()), ("root node body", r"write_all$", ())]),
+        (LLp + "Node::migrate", [("child node hash", r"write_all$", ("hash",)), ("child node stored in the new backing store", r"store_raw$", ()), ("root node body", r"write_all$", ())]),
+        (LLp + HN + "store_update_buf", [("node hash", r"write_all$", ("hash",)), ("node body", r"store_update_buf$", ("data",))]),
+        (LLp + HN + "migrate", [("node hash", r"write_all$", ("hash",)), ("node body", r"::migrate$", ("data",))]),
+        (LLp + HN + "serialize", [("distance to the parent", r"write_u32$", ("pop_front",)), ("node hash", r"write_all$", ("hash",)),
+                                  ("path length and value tag", r"write_node_path_and_value_tag$", ("to_slice", "is_none")), ("stem bytes", r"write_all$", ("path", "to_slice")),
+                                  ("value length", r"write_u32$", ("len", "value")), ("value hash (large values)", r"write_all$", ("get_ref_and_hash",)),
+                                  ("value bytes", r"write_all$", ("get_ref_and_hash",)), ("number of children", r"write_u8$", ("children", "len")),
+                                  ("child key", r"write_u8$", ("children", "next"))]),
+        (LLp + "write_node_path_and_value_tag", [("tag with inline length", r"write_u8$", ("lit64",)), ("tag announcing an explicit length", r"write_u8$", ("lit128", "lit64")),
+                                                   ("explicit length", r"write_u32$", ())]),
+    ]
+    n = 0
+    for path, items in tables:
+        bs = c.get_all(path)
+        if not ck.anchor(len(bs) == 1, "TAB", path, "serialiser exists"):
+            continue
+        f = Fn(bs[0])
+        sites = [(t["f"]["path"], _site_names(f, t, True), t["f"].get("self") or "") for (bi, t) in f.calls(WR_CALLS)]
+        un = _match(items, sites)
+        n += len(items)
+        ck.ob("TAB", path, "format-items-written", not un,
+              "each of the %d items of the encoding is written by its own site (%d write sites)" % (len(items), len(sites)) if not un else
+              "no write site left for: %s (%d write sites for %d items) - the stored form no longer contains every part of the node" % (un, len(sites), len(items)), f.loc())
+    ck.floor("TAB", "items of the node storage formats", n, 40)
+    # readers: the sites that consume the same items
+    LN = "<concordium_smart_contract_engine::v1::trie::low_level::Node as concordium_smart_contract_engine::v1::trie::types::Loadable>::load"
+    rtables = [
+        (LLp[:-len("low_level::")] + "low_level::" + LN if False else LN,
+         [("path length, value tag and stem", r"read_node_path_and_value_tag$", None), ("value tag byte", r"read_u8$", None), ("inline value bytes", r"read_buf$", None),
+          ("indirect value (hash and reference)", r"Loadable(>)?::load$", r"Hashed<.*CachedRef<.*u8"), ("number of children", r"read_u8$", None), ("child key", r"read_u8$", None),
+          ("child reference", r"Loadable(>)?::load$", r"CachedRef<.*Hashed<.*Node")]),
+        (LLp + HN + "deserialize",
+         [("distance to the parent", r"read_u32$", None), ("node hash", r"Hash::read$|Hash.*::read$", None), ("path length, value tag and stem", r"read_node_path_and_value_tag$", None),
+          ("value length", r"read_u32$", None), ("small value bytes", r"read_buf$", None), ("large value hash", r"Hash::read$|Hash.*::read$", None), ("large value bytes", r"read_exact$", None),
+          ("number of children", r"read_u8$", None), ("child key", r"read_u8$", None)]),
+        (LLp + "read_node_path_and_value_tag", [("tag", r"read_u8$", None), ("explicit length", r"read_u32$", None), ("stem bytes", r"read_exact$", None)]),
+    ]
+    for path, items in rtables:
+        bs = c.get_all(path)
+        if not ck.anchor(len(bs) == 1, "TAB", path, "loader exists"):
+            continue
+        f = Fn(bs[0])
+        sites = []
+        for (bi, t) in f.calls(RD_CALLS):
+            st = rules.enforcement(f, bi)["status"]
+            sites.append((t["f"]["path"], set() if st in ("enforced", "propagated") else {"!unenforced"}, t["f"].get("self") or ""))
+        un = _match([(lab, cal, (), sty) for (lab, cal, sty) in items], sites)
+        bad = [s for s in sites if "!unenforced" in s[1]]
+        ck.ob("TAB", path, "format-items-read", not un and not bad,
+              "each of the %d items is read by its own site and every read failure is propagated (%d read sites)" % (len(items), len(sites)) if not un and not bad else
+              "no read site left for: %s; unenforced reads: %d" % (un, len(bad)), f.loc())
